@@ -327,16 +327,16 @@ func (fr *Frame) callContract(bc *BoundContract, args []Val, p token.Pos) []Val 
 	if top := fr.cx.bc; top != nil && top.C.Before != nil {
 		cname := c.Sig.Name.Name
 		for bi, bcl := range top.C.Before[cname] {
+			root := fr
+			for root.parent != nil {
+				root = root.parent
+			}
 			tvars := map[string]Val{}
-			for k, v := range fr.cx.topVars {
+			for k, v := range root.specEnv(fr.st).vars { // parameters and the named locals of the verified function
 				tvars[k] = v
 			}
 			for j, a := range args {
 				tvars[fmt.Sprintf("arg%d", j)] = a
-			}
-			root := fr
-			for root.parent != nil {
-				root = root.parent
 			}
 			tenv := &SpecEnv{cx: fr.cx, pkg: fr.eng().typesPackage(top.C.PkgPath), vars: tvars, cur: fr.st, old: root.entry, rets: root.lastRets, retNames: root.lastRetNames, called: root.lastCalled}
 			if g := fr.evalClause(tenv, bcl); g != nil {
@@ -481,13 +481,13 @@ func (fr *Frame) callContract(bc *BoundContract, args []Val, p token.Pos) []Val 
 	if top := fr.cx.bc; top != nil && top.C.Rely != nil {
 		cname := c.Sig.Name.Name
 		for _, rcl := range top.C.Rely[cname] {
-			tvars := map[string]Val{}
-			for k, v := range fr.cx.topVars {
-				tvars[k] = v
-			}
 			root := fr
 			for root.parent != nil {
 				root = root.parent
+			}
+			tvars := map[string]Val{}
+			for k, v := range root.specEnv(fr.st).vars {
+				tvars[k] = v
 			}
 			tenv := &SpecEnv{cx: fr.cx, pkg: fr.eng().typesPackage(top.C.PkgPath), vars: tvars, cur: fr.st, old: root.entry, rets: root.lastRets, retNames: root.lastRetNames, called: root.lastCalled}
 			if g := fr.evalClause(tenv, rcl); g != nil {
